@@ -372,8 +372,10 @@ class PolicyRefused(Exception):
     pass
 
 
-def run_ssh_client(host, port, entries, policy, host_key):
-    """entries: [(name-in-file, hashed?, PKey)] written to a known_hosts file; returns observation"""
+def run_ssh_client(host, port, entries, policy, host_key, entry="password"):
+    """entries: [(name-in-file, hashed?, PKey)] written to a known_hosts file; returns observation.
+    entry = which authentication entry point of SSHClient.connect is used: legacy password= / pkey= arguments, or
+    auth_strategy= with a password / private-key source"""
     import os
     import tempfile
 
@@ -409,11 +411,27 @@ def run_ssh_client(host, port, entries, policy, host_key):
         try:
             with warnings.catch_warnings():
                 warnings.simplefilter("ignore")
-                c.connect(host, port=port, username="alice", password=PASSWORD, sock=cs, allow_agent=False,
-                          look_for_keys=False, timeout=WAIT, banner_timeout=WAIT, auth_timeout=WAIT)
+                kw = dict(port=port, sock=cs, timeout=WAIT, banner_timeout=WAIT, auth_timeout=WAIT)
+                if entry == "password":
+                    kw.update(username="alice", password=PASSWORD, allow_agent=False, look_for_keys=False)
+                elif entry == "pkey":
+                    kw.update(username="alice", pkey=keys()["ed"], allow_agent=False, look_for_keys=False)
+                else:
+                    from paramiko.auth_strategy import AuthStrategy, InMemoryPrivateKey, Password
+
+                    class Strat(AuthStrategy):
+                        def get_sources(self):
+                            if entry == "strategy-password":
+                                yield Password("alice", password_getter=lambda: PASSWORD)
+                            else:
+                                yield InMemoryPrivateKey("alice", keys()["ed"])
+
+                    kw.update(auth_strategy=Strat(ssh_config=None))
+                c.connect(host, **kw)
         except Exception as e:  # classified below
             exc = e
         out = {"outcome": classify_exc(exc), "server_saw": [x[0] for x in srv.log],
+               "server_saw_credential": any(x[0] in ("password", "publickey") for x in srv.log),
                "server_saw_password": any(x[0] == "password" and x[1] == PASSWORD for x in srv.log),
                "raw": bytes(cs.raw), "policy_called": list(called)}
         try:
